@@ -29,6 +29,7 @@ class Cfg:
 
 
 CFG = Cfg()
+SQRT_TABLE = []   # list of (square : Sym, root : Sym), set by the harness for the current extraction
 
 
 def set_cfg(N=8, D=8, nvars=0):
@@ -144,6 +145,32 @@ def recognise_const(c):
         return tuple(r)
     import mpmath
     mpmath.mp.dps = 30
+    # surd path: real and imaginary parts as a + b*sqrt2 (+ c*sqrt3 + d*sqrt6 when 24 | N)
+    if CFG.N % 8 == 0:
+        e8 = CFG.N // 8
+        r2 = k_add(k_zeta_pow(e8), k_neg(k_zeta_pow(3 * e8)))
+        surds = [(mpmath.sqrt(2), r2)]
+        if CFG.N % 24 == 0:
+            e12 = CFG.N // 12
+            r3 = k_add(k_zeta_pow(e12), k_neg(k_zeta_pow(5 * e12)))
+            surds += [(mpmath.sqrt(3), r3), (mpmath.sqrt(6), k_mul(r2, r3))]
+        I_ = k_zeta_pow(h // 2)
+
+        def part(x):
+            if abs(x) < 1e-15:
+                return k_zero()
+            rel = mpmath.pslq([mpmath.mpf(x), mpmath.mpf(1)] + [sv for sv, _ in surds], tol=mpmath.mpf(10) ** -12, maxcoeff=20000, maxsteps=100000)
+            if rel is None or rel[0] == 0:
+                return None
+            acc = k_const(Fr(-rel[1], rel[0]))
+            for (sv, kv), r in zip(surds, rel[2:]):
+                acc = k_add(acc, k_scale(kv, Fr(-r, rel[0])))
+            return acc
+        pr, pi_ = part(c.real), part(c.imag)
+        if pr is not None and pi_ is not None:
+            a = k_add(pr, k_mul(pi_, I_))
+            if abs(k_num(a) - c) < 1e-11:
+                return a
     basis = [cmath.exp(2j * math.pi * k / CFG.N) for k in range(h)]
     # real-linear system: find rationals a_k with sum a_k zeta^k = c ; use PSLQ on real and imaginary parts jointly
     # trick: combine as  re + T*im  with a transcendental-looking T to get a single relation
@@ -470,7 +497,19 @@ class Sym:
                 return c
         return None
 
+    @staticmethod
+    def _arr(o):
+        return isinstance(o, np.ndarray) and o.ndim > 0
+
+    def _bc(self, o, f):
+        out = np.empty(o.shape, dtype=object)
+        for i, x in enumerate(o.flat):
+            out.flat[i] = f(x)
+        return out
+
     def __add__(self, o):
+        if Sym._arr(o):
+            return self._bc(o, lambda x: self + x)
         o = Sym.of(o)
         t = dict(self.t)
         for m, c in o.t.items():
@@ -485,12 +524,18 @@ class Sym:
         return self
 
     def __sub__(self, o):
+        if Sym._arr(o):
+            return self._bc(o, lambda x: self - x)
         return self + (-Sym.of(o))
 
     def __rsub__(self, o):
+        if Sym._arr(o):
+            return self._bc(o, lambda x: x - self)
         return Sym.of(o) + (-self)
 
     def __mul__(self, o):
+        if Sym._arr(o):
+            return self._bc(o, lambda x: self * x)
         if isinstance(o, Lin) and not (o.is_const() and o.b == 0):
             raise NotExtractable("matrix entry * symbolic angle (non-polynomial)")
         o = Sym.of(o)
@@ -554,6 +599,18 @@ class Sym:
         q = self.as_rational()
         if q is not None and q >= 0:
             return Sym.of(math.sqrt(float(q)))
+        # registered square roots (harness declares e.g. sqrt(sin^2) = sin on the documented domain)
+        for sq, root in SQRT_TABLE:
+            if (self - sq).t == {}:
+                return root
+            # proportional: self = c * sq with c a non-negative rational
+            if sq.t and set(self.t) == set(sq.t):
+                m0 = next(iter(sq.t))
+                k0 = next(i for i, x in enumerate(sq.t[m0]) if x != 0)
+                if self.t[m0][k0] != 0:
+                    c = self.t[m0][k0] / sq.t[m0][k0]
+                    if c > 0 and (self - sq * c).t == {}:
+                        return root * Sym.of(math.sqrt(float(c)))
         raise NotExtractable("sqrt of a ring element")
 
     def exp(self):
